@@ -2309,3 +2309,13 @@ CONTROLS['C05'] += [
       "@db_api.placement_context_manager.writer\ndef _set_traits(",
       'R5.7'),
 ]
+CONTROLS['C14'] += [
+    M('c14-reintroduce-F17', H + 'inventory.py',
+      "    last_modified = last_modified or timeutils.utcnow(with_timezone=True)\n"
+      "    return ({'resource_provider_generation': generation,\n",
+      "    return ({'resource_provider_generation': generation,\n",
+      'R14.12'),
+    M('c14-allocations-time-only-when-listed', H + 'allocation.py',
+      "    last_modified = last_modified or timeutils.utcnow(with_timezone=True)\n    return last_modified\n",
+      "    return last_modified\n", 'R14.12'),
+]
